@@ -23,8 +23,9 @@ def decorate(g, uri, level):
     return g.pick(["", "Bob ", '"B" ']) + "<%s%s%s>" % (uri, g.pick(["", ";transport=tcp", ";lr;x=1", ";transport=tls", ";transport=tls;lr"]), g.pick(["", "?h=v"]))
 
 def message(g, callid, ftag, furi, ttag, turi, as_response, level):
-    sm = g.pick([0, 1, 2, 3]) if level else 0
+    sm = g.pick([0, 1, 2, 3, 4, 5]) if level else 0
     names = {0: ("From", "To", "Call-ID", "CSeq", "Via", "Content-Length"), 1: ("f", "t", "i", "CSeq", "v", "l"),
+             4: ("F", "T", "I", "CSeq", "V", "L"), 5: ("F", "t", "I", "cseq", "v", "L"),
              2: ("FROM", "TO", "CALL-ID", "CSEQ", "VIA", "CONTENT-LENGTH"), 3: ("from", "to", "call-id", "cseq", "via", "content-length")}[sm]
     f = decorate(g, furi, level) + (";tag=" + ftag if ftag is not None else "") + (";foo=bar" if level and g.chance(0.5) else "")
     t = decorate(g, turi, level) + (";tag=" + ttag if ttag is not None else "") + (";q=1" if level and g.chance(0.3) else "")
